@@ -389,10 +389,11 @@ class Summarizer:
             return [(env, conds)]
         if isinstance(st, ast.With):
             return self._block(st.body, [(env, conds)], done, depth, func)
-        if isinstance(st, ast.Expr) and isinstance(st.value, ast.Call) and U(st.value.func) in self.effect_calls:
+        if isinstance(st, ast.Expr) and isinstance(st.value, ast.Call) and (U(st.value.func) in self.effect_calls or "*" in self.effect_calls):
             c = st.value
             args = [self._sub(a, env, depth) for a in c.args]
-            env.setdefault("__fx__", []).append((f"call:{U(c.func)}", args[0] if len(args) == 1 else ast.Tuple(elts=args, ctx=ast.Load()), st))
+            fn_t = U(c.func) if U(c.func) in self.effect_calls else U(self._sub(c.func, env, depth))
+            env.setdefault("__fx__", []).append((f"call:{fn_t}", args[0] if len(args) == 1 else ast.Tuple(elts=args, ctx=ast.Load()), st))
             return [(env, conds)]
         if isinstance(st, (ast.FunctionDef, ast.AsyncFunctionDef, ast.ClassDef)):
             return [(env, conds)]  # a nested definition binds a name; calls to it are inlined through ``inline`` or stay symbolic
